@@ -381,6 +381,9 @@ pub fn zst(kind: u64) -> Vec<u64> {
 }
 
 pub fn run1(kind: u64, n: usize, k: u64) -> Vec<u64> {
+    if kind >= 50 {
+        return if kind < 56 && n == 0 && k == 0 { cmpcount(kind - 50) } else { vec![98] };
+    }
     if kind >= 28 {
         return if kind < 50 && n == 0 && k == 0 { zst(kind - 28) } else { vec![98] };
     }
@@ -516,4 +519,161 @@ pub fn run1(kind: u64, n: usize, k: u64) -> Vec<u64> {
     out.push(SEP);
     out.push(if bad > 0 { 666666 } else { released });
     out
+}
+
+// ---------------------------------------------------------------------------------------------------------------
+// counts read WHILE a comparison, hash or format of a handle is in use (C04: "never change the count, not even while
+// the borrow is in use")
+// ---------------------------------------------------------------------------------------------------------------
+thread_local! {
+    /// reads the counts of the two allocations under test through side handles
+    static PROBE: std::cell::RefCell<Option<Box<dyn Fn() -> (u64, u64)>>> = std::cell::RefCell::new(None);
+    /// (calls, min, max) of what the payload's trait impls saw
+    static SEEN: std::cell::Cell<(u64, u64, u64)> = std::cell::Cell::new((0, u64::MAX, 0));
+}
+
+fn probe() {
+    let c = PROBE.with(|p| p.borrow().as_ref().map(|f| f()));
+    if let Some((a, b)) = c {
+        SEEN.with(|s| {
+            let (n, lo, hi) = s.get();
+            s.set((n + 1, lo.min(a).min(b), hi.max(a).max(b)));
+        });
+    }
+}
+
+/// a payload whose comparison, hashing and formatting look at the counts
+pub struct Pr(u32);
+impl PartialEq for Pr {
+    fn eq(&self, o: &Pr) -> bool {
+        probe();
+        self.0 == o.0
+    }
+}
+impl Eq for Pr {}
+impl PartialOrd for Pr {
+    fn partial_cmp(&self, o: &Pr) -> Option<std::cmp::Ordering> {
+        probe();
+        self.0.partial_cmp(&o.0)
+    }
+}
+impl Ord for Pr {
+    fn cmp(&self, o: &Pr) -> std::cmp::Ordering {
+        probe();
+        self.0.cmp(&o.0)
+    }
+}
+impl std::hash::Hash for Pr {
+    fn hash<H: std::hash::Hasher>(&self, h: &mut H) {
+        probe();
+        self.0.hash(h)
+    }
+}
+impl std::fmt::Debug for Pr {
+    fn fmt(&self, f: &mut std::fmt::Formatter) -> std::fmt::Result {
+        probe();
+        write!(f, "Pr({})", self.0)
+    }
+}
+impl std::fmt::Display for Pr {
+    fn fmt(&self, f: &mut std::fmt::Formatter) -> std::fmt::Result {
+        probe();
+        write!(f, "{}", self.0)
+    }
+}
+
+fn hash_of<T: std::hash::Hash>(t: &T) -> u64 {
+    use std::hash::Hasher;
+    let mut h = std::collections::hash_map::DefaultHasher::new();
+    t.hash(&mut h);
+    h.finish()
+}
+
+/// `[70 + j, 0, 0]`: two values in distinct allocations, each with two owning handles (the one under test and a side
+/// handle the payload's trait impls read the count through); every comparison / hash / format the handle kind offers.
+/// observation `[status, SEP, SEP, the payload was consulted, count before, least and greatest count seen inside, count after]`
+pub fn cmpcount(kind: u64) -> Vec<u64> {
+    SEEN.with(|s| s.set((0, u64::MAX, 0)));
+    let mut before = 0;
+    let mut after = 0;
+    let r = catch_unwind(AssertUnwindSafe(|| {
+        macro_rules! all_ord {
+            ($x:expr, $y:expr) => {{
+                let _ = $x == $y;
+                let _ = $x != $y;
+                let _ = $x.partial_cmp($y);
+                let _ = $x < $y;
+                let _ = $x <= $y;
+                let _ = $x > $y;
+                let _ = $x >= $y;
+                let _ = $x.cmp($y);
+                let _ = hash_of($x);
+                let _ = format!("{:?}", $x);
+            }};
+        }
+        match kind {
+            0 => {
+                let (a, b) = (Arc::new(Pr(1)), Arc::new(Pr(2)));
+                let (sa, sb) = (a.clone(), b.clone());
+                PROBE.with(|p| *p.borrow_mut() = Some(Box::new(move || (Arc::count(&sa) as u64, Arc::count(&sb) as u64))));
+                before = Arc::count(&a) as u64;
+                all_ord!(&a, &b);
+                let _ = format!("{}", &a);
+                after = Arc::count(&a).max(Arc::count(&b)) as u64;
+            }
+            1 => {
+                let (a, b) = (Arc::new(Pr(1)), Arc::new(Pr(2)));
+                let (oa, ob) = (Arc::into_raw_offset(a.clone()), Arc::into_raw_offset(b.clone()));
+                PROBE.with(|p| *p.borrow_mut() = Some(Box::new(move || (Arc::count(&a) as u64, Arc::count(&b) as u64))));
+                before = triomphe::OffsetArc::strong_count(&oa) as u64;
+                let _ = oa == ob;
+                let _ = oa != ob;
+                let _ = format!("{:?}", &oa);
+                after = triomphe::OffsetArc::strong_count(&oa).max(triomphe::OffsetArc::strong_count(&ob)) as u64;
+            }
+            2 => {
+                let (a, b) = (Arc::new(Pr(1)), Arc::new(Pr(2)));
+                let (sa, sb) = (a.clone(), b.clone());
+                PROBE.with(|p| *p.borrow_mut() = Some(Box::new(move || (Arc::count(&sa) as u64, Arc::count(&sb) as u64))));
+                let (ba, bb) = (a.borrow_arc(), b.borrow_arc());
+                before = triomphe::ArcBorrow::strong_count(&ba) as u64;
+                let _ = ba == bb;
+                let _ = ba != bb;
+                let _ = format!("{:?}", &ba);
+                after = triomphe::ArcBorrow::strong_count(&ba).max(triomphe::ArcBorrow::strong_count(&bb)) as u64;
+            }
+            3 => {
+                let a = ThinArc::from_header_and_iter(Pr(1), vec![Pr(3), Pr(4)].into_iter());
+                let b = ThinArc::from_header_and_iter(Pr(1), vec![Pr(3), Pr(5)].into_iter());
+                let (sa, sb) = (a.clone(), b.clone());
+                PROBE.with(|p| *p.borrow_mut() = Some(Box::new(move || (ThinArc::strong_count(&sa) as u64, ThinArc::strong_count(&sb) as u64))));
+                before = ThinArc::strong_count(&a) as u64;
+                all_ord!(&a, &b);
+                after = ThinArc::strong_count(&a).max(ThinArc::strong_count(&b)) as u64;
+            }
+            4 => {
+                let (a, b) = (Arc::new(Pr(1)), Arc::new(Pr(2)));
+                let (sa, sb) = (a.clone(), b.clone());
+                PROBE.with(|p| *p.borrow_mut() = Some(Box::new(move || (Arc::count(&sa) as u64, Arc::count(&sb) as u64))));
+                let (ua, ub) = (ArcUnion::<Pr, u64>::from_first(a), ArcUnion::<Pr, u64>::from_first(b));
+                before = ArcUnion::strong_count(&ua) as u64;
+                let _ = ua == ub;
+                let _ = ua != ub;
+                let _ = format!("{:?}", &ua);
+                after = ArcUnion::strong_count(&ua).max(ArcUnion::strong_count(&ub)) as u64;
+            }
+            _ => {
+                let a = Arc::from_header_and_iter(Pr(1), vec![Pr(3), Pr(4)].into_iter());
+                let b = Arc::from_header_and_iter(Pr(1), vec![Pr(3), Pr(5)].into_iter());
+                let (sa, sb) = (a.clone(), b.clone());
+                PROBE.with(|p| *p.borrow_mut() = Some(Box::new(move || (Arc::count(&sa) as u64, Arc::count(&sb) as u64))));
+                before = Arc::count(&a) as u64;
+                all_ord!(&a, &b);
+                after = Arc::count(&a).max(Arc::count(&b)) as u64;
+            }
+        }
+    }));
+    PROBE.with(|p| *p.borrow_mut() = None);
+    let (n, lo, hi) = SEEN.with(|s| s.get());
+    vec![r.is_err() as u64, SEP, SEP, (n > 0) as u64, before, if n > 0 { lo } else { 0 }, hi, after]
 }
